@@ -238,7 +238,7 @@ def run_shard(ctx):
     def test(case):
         check_case(ctx, case)
 
-    runner.drive(ctx, test, ctx.n(1600, 30000))
+    runner.drive(ctx, test, ctx.n(1600, 40000))
 
 
 def replay(ctx, case):
